@@ -408,6 +408,17 @@ def shrink(rng_seed: int, case, f0: dict):
             return True
         return False
 
+    # 0. does the failure need the merged lattice / the special angles at all?
+    if cur.get("merged"):
+        d = dict(cur, merged=False)
+        d.pop("_t", None)
+        attempt(d, fcur)
+    for i, r in enumerate(cur["recs"]):
+        if "tilt" in r and any(float(r["tilt"]) == a for a in SPECIAL_ANGLES):
+            d = dict(cur, recs=copy.deepcopy(cur["recs"]))
+            d.pop("_t", None)
+            d["recs"][i]["tilt"] = 0.37
+            attempt(d, fcur)
     # 1. drop elements that do not own the parameter
     j = 0
     while len(cur["recs"]) > 1 and j < len(cur["recs"]):
@@ -504,6 +515,15 @@ def sweep(ctx, cache) -> None:
                 rep.case(("sweep", kind, tuple(sorted(zs)), bt),
                          {"lattice": H.label(case["recs"][0]), "zero": sorted(zs), "beam": bt,
                           "parameters": [k for k, _, _ in thetas(case)]})
+                examine(ctx, case, known=cache)
+        if "tilt" in H.PARAMS[cls]:
+            # the documented settings of a vertical / flipped magnet: the tilt exactly on +-pi/2 (and pi in the thorough tier)
+            for ang in (SPECIAL_ANGLES if full else SPECIAL_ANGLES[:2]):
+                bt = bts[int(rng.integers(len(bts)))]
+                case = make_case(rng, [kind], [set()], bt)
+                case["recs"][0]["tilt"] = ang
+                rep.count("point:special-tilt")
+                rep.case(("sweep-special-tilt", kind, ang, bt), None)
                 examine(ctx, case, known=cache)
 
 
